@@ -39,6 +39,7 @@ type Adv struct {
 	HoldAck bool `json:"hold_ack"` // acknowledge nothing new this time (pure window update)
 	DelayUs int  `json:"delay_us"` // wait before answering
 	Every   int  `json:"every"`    // answer after this many data segments (1..3)
+	PMTU    int  `json:"pmtu"`     // >0: before answering, a router reports "packet too big" with this path MTU, quoting the segment just received
 }
 
 type SendCase struct {
@@ -151,6 +152,13 @@ func runSend(c SendCase) *evid.Failure {
 		}
 		return m
 	}
+	// path-MTU reports: segments emitted well after a report must fit the reported MTU
+	type pmtuEv struct {
+		at  time.Time
+		mtu int
+	}
+	var pmtus []pmtuEv
+	pmtuBound := 0
 	step, segsSinceAck := 0, 0
 	windowBound, tiny, zero := 0, 0, 0
 	deadline := time.Now().Add(12 * time.Second)
@@ -187,6 +195,15 @@ func runSend(c SendCase) *evid.Failure {
 		if fr.Pkt.IPTotal > c.Env.MTU {
 			return evid.Failf("send-over-mtu", "IP packet of %d bytes on a link with MTU %d", fr.Pkt.IPTotal, c.Env.MTU)
 		}
+		for _, pe := range pmtus {
+			// the report is processed asynchronously: only segments emitted well after it are judged
+			if fr.T.Sub(pe.at) > 150*time.Millisecond && fr.Pkt.IPTotal > pe.mtu {
+				return evid.Failf("send-over-path-mtu", "IP packet of %d bytes (TCP header %d, payload %d) emitted %v after a packet-too-big report announced a path MTU of %d", fr.Pkt.IPTotal, fr.Pkt.TCPHdrLen, len(k.Payload), fr.T.Sub(pe.at), pe.mtu)
+			}
+			if fr.T.Sub(pe.at) > 150*time.Millisecond && fr.Pkt.IPTotal == pe.mtu {
+				pmtuBound++
+			}
+		}
 		if len(k.Payload) > mssLimit {
 			return evid.Failf("send-over-mss", "data segment of %d bytes although the peer announced MSS %d (536 if absent)", len(k.Payload), c.MSS)
 		}
@@ -218,6 +235,37 @@ func runSend(c SendCase) *evid.Failure {
 		}
 		segsSinceAck = 0
 		step++
+		if adv.PMTU > 0 && adv.PMTU < fr.Pkt.IPTotal {
+			// ICMP "fragmentation needed" / ICMPv6 "packet too big" quoting the head of the segment just received
+			quote := fr.Raw
+			if len(quote) > fr.Pkt.IPHdrLen+8 {
+				quote = quote[:fr.Pkt.IPHdrLen+8]
+			}
+			router := []byte(netsim.C4)
+			if c.Env.V6 {
+				router = []byte(netsim.C6)
+				body := append([]byte{0, 0, byte(adv.PMTU >> 8), byte(adv.PMTU)}, quote...)
+				env.Tap.Inject(0x86dd, codec.BuildIPv6(codec.IPv6Hdr{Src: router, Dst: []byte(env.StackAddr()), NextHeader: codec.ProtoICMPv6}, codec.BuildICMPv6(router, []byte(env.StackAddr()), 2, 0, body)))
+			} else {
+				m := make([]byte, 8+len(quote))
+				m[0], m[1] = 3, 4
+				m[6], m[7] = byte(adv.PMTU>>8), byte(adv.PMTU)
+				copy(m[8:], quote)
+				ck := ^codec.Sum1071(m, 0)
+				m[2], m[3] = byte(ck>>8), byte(ck)
+				env.Tap.Inject(0x0800, codec.BuildIPv4(codec.IPv4Hdr{Src: router, Dst: []byte(env.StackAddr()), Proto: codec.ProtoICMP}, m))
+			}
+			pmtus = append(pmtus, pmtuEv{time.Now(), adv.PMTU})
+			// a router that reports "too big" has dropped the packet: treat it as not received
+			for i := off; i < end; i++ {
+				have[i] = false
+			}
+			if edgeRcv > off {
+				edgeRcv = off
+			}
+			evid.Label("send:path-mtu-reduced")
+			continue
+		}
 		if adv.DelayUs > 0 {
 			time.Sleep(time.Duration(adv.DelayUs) * time.Microsecond)
 		}
@@ -268,7 +316,10 @@ func runSend(c SendCase) *evid.Failure {
 	if p.WS > 0 {
 		evid.Label("send:scaled")
 	}
-	if windowBound+zero+tiny > 0 {
+	if pmtuBound > 0 {
+		evid.Label("send:path-mtu-was-binding")
+	}
+	if windowBound+zero+tiny+pmtuBound > 0 {
 		evid.NonTrivialKey("send", fmt.Sprintf("%+v", c))
 		evid.Sample("send", c)
 	}
@@ -322,11 +373,36 @@ func genSend(rt *rapid.T) SendCase {
 		a.HoldAck = rapid.IntRange(0, 7).Draw(rt, "hold") == 0
 		a.DelayUs = rapid.SampledFrom([]int{0, 0, 0, 100, 1000, 5000}).Draw(rt, "delay")
 		a.Every = rapid.IntRange(1, 3).Draw(rt, "every")
+		if rapid.IntRange(0, 5).Draw(rt, "pmtu") == 0 {
+			lo := 576
+			if c.Env.V6 {
+				lo = 1280
+			}
+			if c.Env.MTU > lo+40 {
+				a.PMTU = rapid.IntRange(lo, c.Env.MTU-40).Draw(rt, "pmtu_val")
+			}
+		}
 		c.Advs = append(c.Advs, a)
 	}
 	return c
 }
 
+// the path-MTU verdict depends on the stack having processed the report (150 ms
+// are allowed): it is confirmed by re-running the case
+func runSendConfirmed(c SendCase) *evid.Failure {
+	f := runSend(c)
+	if f == nil || f.Sig != "send-over-path-mtu" {
+		return f
+	}
+	for i := 0; i < 2; i++ {
+		if g := runSend(c); g == nil || g.Sig != f.Sig {
+			evid.Unconfirmed()
+			return nil
+		}
+	}
+	return f
+}
+
 func TestSend(t *testing.T) {
-	evid.Run(t, evid.Spec[SendCase]{Name: "send", Gen: genSend, Run: runSend})
+	evid.Run(t, evid.Spec[SendCase]{Name: "send", Gen: genSend, Run: runSendConfirmed})
 }
